@@ -158,9 +158,41 @@ def gen_cases(tier, seed):
                       'explicit': r.random() < 0.3,
                       'mseed': r.randrange(1 << 30)})
         k += 1
+    # long chains: more contracted indices of one space than un-numbered names
+    # (numbered generations i1.. are needed) with numbered target names
+    base = {'occ': 'ijklmno', 'virt': 'abcdefgh', 'general': 'pqrstuvw'}
+    for c in range(14 * mult):
+        sp = r.choice(['occ', 'virt', 'general'])
+        ncon = r.randint(len(base[sp]) - 1, len(base[sp]) + 4)
+        tnames = []
+        while len(tnames) < 2:     # two distinct names, numbered ones preferred
+            nm = r.choice(base[sp][:3]) + r.choice(['', '1', '1', '2'])
+            if nm not in tnames:
+                tnames.append(nm)
+        pool = [b + sfx for sfx in ('', '3', '4', '9') for b in base[sp]
+                if b + sfx not in tnames]
+        con = r.sample(pool, ncon)
+        seq = [tnames[0]] + con + [tnames[1]]
+        objs = [{'t': 'non', 'name': r.choice(['x', 'y']),
+                 'up': [seq[q], seq[q + 1]]} for q in range(len(seq) - 1)]
+        cases.append({'id': f'C08-{tier[0]}{seed}-{k:05d}-chain', 'kind': 'rename',
+                      'terms': [{'pref': '1', 'objs': objs}],
+                      'targets': sorted(tnames), 'spin': False,
+                      'mode': 'lowest', 'explicit': r.random() < 0.3,
+                      'mseed': r.randrange(1 << 30), 'dims': [2, 2]})
+        k += 1
+    # the name helper itself against the documented rule
+    for c in range(30 * mult):
+        sp = r.choice(['occ', 'virt', 'general'])
+        allnames = [b + sfx for sfx in ('', '1', '2', '3') for b in base[sp]]
+        used = r.sample(allnames, r.randint(0, 14))
+        cases.append({'id': f'C08-{tier[0]}{seed}-{k:05d}-lowest',
+                      'kind': 'lowest', 'space': sp, 'used': used,
+                      'n': r.randint(1, 18)})
+        k += 1
     for h in range(6 * mult):
         cases.append({'id': f'C08-{tier[0]}{seed}-hist{h:03d}', 'kind': 'history',
-                      'length': r.choice([50, 120, 300, 500]),
+                      'length': [300, 500, 120, 300, 500, 50][h % 6],
                       'hseed': r.randrange(1 << 30), 'cost': 20,
                       'derive': r.random() < 0.5})
     return cases
@@ -174,7 +206,26 @@ def run_case(case, res):
         return run_permute(case, res)
     if kind == 'rename':
         return run_rename(case, res)
+    if kind == 'lowest':
+        return run_lowest(case, res)
     return run_history(case, res)
+
+
+def run_lowest(case, res):
+    from adcgen.indices import get_lowest_avail_indices
+    got = lib_call(get_lowest_avail_indices, case['n'], list(case['used']),
+                   case['space'])
+    res.count('lowest_name_requests')
+    exp = _lowest(case['space'], set(case['used']), case['n'])
+    res.nontrivial = bool(case['used'])
+    res.fingerprint = fp('lowest', case['space'], case['n'],
+                         len(case['used']), any(ch.isdigit() for u in
+                                                case['used'] for ch in u))
+    res.observed = {'n': case['n'], 'used': case['used'], 'got': list(got)}
+    if list(got) != exp:
+        res.violation(f'get_lowest_avail_indices({case["n"]}, {case["used"]}, '
+                      f'{case["space"]!r}) = {list(got)}: not the lowest names '
+                      f'that are not in use ({exp})')
 
 
 def run_subs(case, res):
@@ -258,7 +309,7 @@ def run_rename(case, res):
                  else E.copy().substitute_with_generic,
                  refusals=('Inputerror', 'NotImplementedError', 'ValueError'))
     res.count('rename_cases')
-    n_o, n_v = (4, 4) if case['spin'] else (2, 3)
+    n_o, n_v = case.get('dims') or ((4, 4) if case['spin'] else (2, 3))
     model = tm.Model(n_o, n_v, seed=case['mseed'], spin=case['spin'])
     ev = tm.Evaluator(model)
     res.nontrivial = R.sympy != E.sympy
